@@ -13,7 +13,9 @@ from .ll2c import EXC_IDS, Unsupported
 
 class In:
     """pointer to n reals; fixed = {index: constant} pins entries to concrete values (branches on them stay concrete)"""
-    def __init__(s, name, n, fixed=None): s.name = name; s.n = n; s.fixed = fixed or {}
+    def __init__(s, name, n, fixed=None, param=None):
+        s.name = name; s.n = n; s.fixed = fixed or {}
+        s.param = param     # (k, fn): the n values are fn([k free parameters]) - e.g. a rational parametrisation of unit vectors
 class Out:
     def __init__(s, name, n): s.name = name; s.n = n
 class Val:
@@ -77,7 +79,13 @@ def _build_state(case, conc_inputs=None):
         return z3.Real(nm)
     for a in case.args:
         if isinstance(a, In):
-            vals = [Rat(Fraction(a.fixed[i])) if i in a.fixed else Rat(conc_inputs[a.name][i]) if conc_inputs is not None else Rat(var('%s_%d' % (a.name, i))) for i in range(a.n)]
+            if a.param:
+                k, fn = a.param
+                ps = [Rat(conc_inputs[a.name + '_p'][i]) if conc_inputs is not None else Rat(var('%s_p_%d' % (a.name, i))) for i in range(k)]
+                vals = [R(v) for v in fn(ps)]
+                I[a.name + '_p'] = ps
+            else:
+                vals = [Rat(Fraction(a.fixed[i])) if i in a.fixed else Rat(conc_inputs[a.name][i]) if conc_inputs is not None else Rat(var('%s_%d' % (a.name, i))) for i in range(a.n)]
             for i, v in enumerate(vals): st.mem[(a.name, i * esz)] = v
             I[a.name] = vals; argv.append(Ptr(a.name, 0)); bufs.append((a.name, a.n))
         elif isinstance(a, Out):
@@ -115,7 +123,7 @@ def _outputs(case, fs, rv, bufs):
 def input_names(case):
     out = []
     for a in case.args:
-        if isinstance(a, In): out += [(a.name, a.n)]
+        if isinstance(a, In): out += [(a.name + '_p', a.param[0])] if a.param else [(a.name, a.n)]
         elif isinstance(a, Val): out += [(a.name, 1)]
         elif isinstance(a, Raw): out += [(spec, 1) for off, kind, spec in a.fields if kind == 'r']
     return out
@@ -127,7 +135,11 @@ def run_native(lib, case, inputs):
     argv = []; keep = []; bufs = []
     for a in case.args:
         if isinstance(a, In):
-            arr = (cty * a.n)(*[float(a.fixed[i]) if i in a.fixed else float(x) for i, x in enumerate(inputs[a.name])]); keep.append(arr); argv.append(ctypes.cast(arr, ctypes.c_void_p)); bufs.append((a.name, a.n, arr))
+            if a.param:
+                vals = [v.frac() for v in map(R, a.param[1]([Rat(Fraction(x)) for x in inputs[a.name + '_p']]))]
+            else:
+                vals = [a.fixed[i] if i in a.fixed else x for i, x in enumerate(inputs[a.name])]
+            arr = (cty * a.n)(*[float(x) for x in vals]); keep.append(arr); argv.append(ctypes.cast(arr, ctypes.c_void_p)); bufs.append((a.name, a.n, arr))
         elif isinstance(a, Out):
             arr = (cty * a.n)(*[777.0 + i for i in range(a.n)]); keep.append(arr); argv.append(ctypes.cast(arr, ctypes.c_void_p)); bufs.append((a.name, a.n, arr))
         elif isinstance(a, Val): argv.append(cty(float(inputs[a.name][0])))
@@ -215,7 +227,7 @@ def run_case(case, module, real_so):
                 # sat: candidate counterexample -> native replay
                 inputs = {}
                 for nm, n in input_names(case):
-                    inputs[nm] = [model_value(m, z3.Real('%s_%d' % (nm, i) if n > 1 or any(isinstance(a, In) and a.name == nm for a in case.args) else nm)) for i in range(n)]
+                    inputs[nm] = [model_value(m, z3.Real('%s_%d' % (nm, i) if n > 1 or any(isinstance(a, In) and (a.name == nm or a.name + '_p' == nm) for a in case.args) else nm)) for i in range(n)]
                 free = {k: model_value(m, v) for k, v in X.freevars.items()}
                 conf, info = replay(case, lib, inputs, free, label)
                 ent = {'path': npaths, 'claim': label, 'verdict': 'violated' if conf else 'unconfirmed', 's': round(dt, 2),
@@ -245,7 +257,11 @@ def replay(case, lib, inputs, free, label):
         O['ret'] = _norm_ret(case, O['ret'])
         I = {}
         for a in case.args:
-            if isinstance(a, In): I[a.name] = [Rat(Fraction(a.fixed[i])) if i in a.fixed else Rat(Fraction(float(x))) for i, x in enumerate(inputs[a.name])]
+            if isinstance(a, In) and a.param:
+                cty_ = ctypes.c_float if case.T == 'f' else ctypes.c_double
+                I[a.name + '_p'] = [Rat(Fraction(x)) for x in inputs[a.name + '_p']]
+                I[a.name] = [Rat(Fraction(cty_(float(v.frac())).value)) for v in map(R, a.param[1](I[a.name + '_p']))]
+            elif isinstance(a, In): I[a.name] = [Rat(Fraction(a.fixed[i])) if i in a.fixed else Rat(Fraction(float(x))) for i, x in enumerate(inputs[a.name])]
             elif isinstance(a, Val): I[a.name] = Rat(Fraction(float(inputs[a.name][0])))
             elif isinstance(a, Raw):
                 for off, kind, spec in a.fields:
